@@ -91,6 +91,20 @@ func ZeroWriter(t *parser.Type, oprot string, err string) string {
 	}
 }
 
+// ZeroWriterOf is ZeroWriter for the type of a read/write context: the key and value types of a container
+// come from the sub-contexts, which are resolved also when the field names a typedef of a container.
+func ZeroWriterOf(ctx *ReadWriteContext, oprot string, err string) string {
+	t := ctx.Type
+	if t.GetCategory().IsContainerType() {
+		r := &parser.Type{Name: t.Name, Category: t.Category, ValueType: ctx.ValCtx.Type}
+		if ctx.KeyCtx != nil {
+			r.KeyType = ctx.KeyCtx.Type
+		}
+		t = r
+	}
+	return ZeroWriter(t, oprot, err)
+}
+
 // IsIntType determines whether the given type is a Int type.
 func IsIntType(t *parser.Type) bool {
 	switch t.Category {
